@@ -10856,7 +10856,7 @@ namespace awkward {
       if (ptr_lib == kernel::lib::cpu) {
         return awkward_NumpyArray_fill_tofloat32_fromfloat32(
           reinterpret_cast<float*>(toptr),
-          tooffset,
+          2*tooffset,
           reinterpret_cast<const float*>(fromptr),
           2*length);
       }
@@ -10881,7 +10881,7 @@ namespace awkward {
       if (ptr_lib == kernel::lib::cpu) {
         return awkward_NumpyArray_fill_tofloat64_fromfloat32(
           reinterpret_cast<double*>(toptr),
-          tooffset,
+          2*tooffset,
           reinterpret_cast<const float*>(fromptr),
           2*length);
       }
@@ -11182,7 +11182,7 @@ namespace awkward {
       if (ptr_lib == kernel::lib::cpu) {
         return awkward_NumpyArray_fill_tofloat32_fromfloat64(
           reinterpret_cast<float*>(toptr),
-          tooffset,
+          2*tooffset,
           reinterpret_cast<const double*>(fromptr),
           2*length);
       }
@@ -11207,7 +11207,7 @@ namespace awkward {
       if (ptr_lib == kernel::lib::cpu) {
         return awkward_NumpyArray_fill_tofloat64_fromfloat64(
           reinterpret_cast<double*>(toptr),
-          tooffset,
+          2*tooffset,
           reinterpret_cast<const double*>(fromptr),
           2*length);
       }
